@@ -97,11 +97,13 @@ class Machine(RuleBasedStateMachine):
             FAILS.append({"ops": list(self.ops), "message": msg})
 
     @initialize(start=st.sampled_from([0, 1, 999, 65536 - 3, 65536 * 7 - 500, 2**32 - 2000, 2**32 - 70000, 2**31 - 1, 123456789]),
-                jitter=st.integers(0, 1999), wrap=st.sampled_from([32, 64, 32]))
-    def new(self, start, jitter, wrap):
+                jitter=st.integers(0, 1999), wrap=st.sampled_from([32, 64, 32]), wiring=st.sampled_from([4, 4, 6]))
+    def new(self, start, jitter, wrap, wiring):
+        # wiring 4: backup clock only; 6: also a reference clock that cannot be set and reports its own time (NTP-like) -
+        # loop() is never called here, so the reference must not influence what the clock shows
         m0 = start + jitter
-        self.ops.append(["new", m0, wrap])
-        cmd("NEW 4 3600 5 1000 %d %d" % (m0, wrap))
+        self.ops.append(["new", m0, wrap, wiring])
+        cmd("NEW %d 3600 5 1000 %d %d" % (wiring, m0, wrap))
         self.model = Model(m0)
         self.check_read()
 
@@ -234,7 +236,7 @@ def replay_ops(ops):
     model = None
     for op in ops:
         if op[0] == "new":
-            cmd("NEW 4 3600 5 1000 %d %d" % (op[1], op[2]))
+            cmd("NEW %d 3600 5 1000 %d %d" % (op[3] if len(op) > 3 else 4, op[1], op[2]))
             model = Model(op[1])
         elif op[0] == "set":
             cmd("SET %d" % op[1])
